@@ -244,7 +244,17 @@ func (ex *Exec) runGoroutine(g *Goroutine) {
 		}
 		instr := fr.block.Instrs[fr.pc]
 		ex.Steps++
+		if ex.Steps == ex.MaxSteps/2 {
+			ex.clockAtHalf = ex.Clock
+		}
 		if ex.Steps > ex.MaxSteps {
+			// Livelock: a concurrent run in which the second half of the
+			// budget was spent without the virtual clock moving - some
+			// goroutine spins without ever blocking (a busy retry loop).
+			// Reported like a hang; the native replay has to confirm it.
+			if len(ex.gs) > 1 && ex.Clock == ex.clockAtHalf && ex.Clock > 0 {
+				ex.report(&Violation{Kind: "deadlock", Msg: fmt.Sprintf("livelock: %d instructions executed while virtual time stood still (a goroutine spins without blocking), running: g%d %s @ %s", ex.MaxSteps/2, g.id, g.name, ex.stackString(g))})
+			}
 			panic(pathEnd{"unwind: instruction budget exceeded"})
 		}
 		if ex.TraceW != nil {
